@@ -175,9 +175,45 @@ def gen_deep_case(rng):
     return spec
 
 
+def gen_three_level_case(rng):
+    """always three strategy levels, and the leaf mostly trades names its holder does not list itself (each level's universe is
+    cut from the full data, not from its holder's)"""
+    from .. import whole_run as W
+    spec = W.gen_spec(rng, nested=False)
+    tick = list(spec["tickers"])
+
+    def node(name, own, kids):
+        return {"name": name, "tickers": own, "kids": kids, "stack": W.gen_stack(rng, [k["name"] for k in kids] + own)}
+    mids = []
+    for i in range(rng.randint(1, 2)):
+        mown = rng.sample(tick, rng.randint(1, max(1, len(tick) - 1)))
+        leaves = []
+        for j in range(rng.randint(1, 2)):
+            lown = rng.sample(tick, rng.randint(1, len(tick)))
+            rest = [t for t in tick if t not in mown]
+            if rest and set(lown) <= set(mown) and rng.random() < 0.8:
+                lown.append(rng.choice(rest))
+            leaves.append(node("top_s%d_s%d" % (i, j), lown, []))
+        mids.append(node("top_s%d" % i, mown, leaves))
+    spec["tree"] = node("top", rng.sample(tick, rng.randint(1, len(tick))), mids)
+
+    def all_follow(t):
+        return t["stack"][2][0] == "WeighEqually" and all(all_follow(k) for k in t["kids"])
+    if not all_follow(spec["tree"]):
+        for t in tick:
+            spec["prices"][t] = [p_ if p_ is not None else 10.0 for p_ in spec["prices"][t]]
+    if spec["comm"][0] == 0 and rng.random() < 0.5:
+        spec["comm"] = rng.choice([[3, 0, 0.001], [2, 0, 0.0078125], [1, 2.0, 0], [5, 1.0, 0.001]])
+    return spec
+
+
 def run(ctx, bt):
     for _ in range(ctx.scale(25, 500)):
         spec = gen_deep_case(ctx.rng)
+        ctx.evaluations += 1
+        run_case(ctx, bt, spec)
+    for _ in range(ctx.scale(25, 500)):
+        spec = gen_three_level_case(ctx.rng)
         ctx.evaluations += 1
         run_case(ctx, bt, spec)
     for _ in range(ctx.scale(70, 1500)):
